@@ -4,7 +4,7 @@
 //!
 //! case {"mode":"pair","a":dec,"ra":"S"|"B","b":dec,"rb":"S"|"B","pow":bool,"shift":bool}
 //!   -> {"status":"ok","r":{"add/oo":"S 5",...}}        (every entry: "<rep> <dec>" | "b0"/"b1" | "lt"/"eq"/"gt" | "panic")
-//! case {"mode":"un","a":dec,"ra":..,"prime":bool,"pows":[u32,..]}
+//! case {"mode":"un","a":dec,"ra":..,"prime":bool,"factorize":bool,"pows":[u32,..]}
 //! case {"mode":"prog","stmts":[src,..],"fuel":n}
 //!   -> {"results":[{"status","val","rep",...},..]}   rep: one letter per integer in the value, in order
 use nvh::noulith::nnum::NNum;
@@ -151,6 +151,8 @@ fn un(case: &Value) -> Value {
     }
     if case.get("prime").and_then(|v| v.as_bool()).unwrap_or(false) {
         m.insert("is_prime".into(), json!(guard(|| showb(a.lazy_is_prime()))));
+    }
+    if case.get("factorize").and_then(|v| v.as_bool()).unwrap_or(false) {
         m.insert(
             "factorize".into(),
             json!(guard(|| {
